@@ -431,8 +431,15 @@ func (c *celValidator) convertInOperator(args []*exprpb.Expr, fieldName string) 
 		return fmt.Sprintf("slices.Contains(%s, %s)", collection, element)
 	}
 
+	// The loop variable must not capture an identifier of the element, such as the
+	// iteration variable of an enclosing value.all(item, item in this.Allowed).
+	loopVar := "item"
+	for strings.Contains(element, loopVar) || strings.Contains(collection, loopVar) {
+		loopVar = "_" + loopVar
+	}
+
 	// Generate a contains check for slices
-	return fmt.Sprintf("func() bool { for _, item := range %s { if item == %s { return true } }; return false }()", collection, element)
+	return fmt.Sprintf("func() bool { for _, %s := range %s { if %s == %s { return true } }; return false }()", loopVar, collection, loopVar, element)
 }
 
 // allNumericConstants reports whether every element is an integer or double literal.
